@@ -31,6 +31,7 @@ type seqCase struct {
 	Cfg   core.Config
 	NOps  int
 	NKeys int
+	Flag  int // property-specific
 }
 
 func (c01) Cases(tier string, seed uint64) []core.Case {
